@@ -446,9 +446,23 @@ func buildC01(tier string) *core.Plan {
 			}
 		}}
 
+	// what a child ADDS (a new key, an appended list entry) arrives unchanged, whatever it is made of
+	awkward := []any{"\nx", "\tq\n", " lead", "x\n", "\n", map[string]any{"<<": map[string]any{"k": 1}}, map[string]any{"s": "\n  x\n y", "t": []any{"\nitem"}},
+		1.0, 2.5, 1e21, math.MaxInt64, "", "<<", "null", "~", "1", []any{}, map[string]any{}, []any{[]any{"\n"}}, strings.Repeat("long ", 3000), "---", "a: b", "- x"}
+	addSpace := core.Space{Name: "child-adds-awkward-values", N: int64(len(awkward)),
+		Desc: func(i int64) any { return clipAny(awkward[i]) },
+		Run: func(c *core.Ctx, i int64) {
+			v := awkward[i]
+			c01Pair(c, "refMerge-added", map[string]any{"a": 1}, map[string]any{"n": core.Clone(v)})
+			c01Pair(c, "refMerge-added", map[string]any{"a": map[string]any{"b": 1}}, map[string]any{"a": map[string]any{"n": map[string]any{"deep": core.Clone(v)}}})
+			c01Pair(c, "refMerge-added", map[string]any{"l": []any{1}}, map[string]any{"l": []any{core.Clone(v)}})
+			c01Pair(c, "refMerge-added", map[string]any{"l": []any{map[string]any{"k": 1}}}, map[string]any{"l": []any{map[string]any{"$match": map[string]any{"k": 1}, "n": core.Clone(v)}}})
+			c01Pair(c, "refMerge-added", map[string]any{"a": 1}, map[string]any{"a": core.Clone(v)})
+		}}
+
 	return &core.Plan{
 		Spaces: func() []core.Space {
-			sp := []core.Space{product, listSpace, shapeSpace, fanout, chain, files, kindSpace}
+			sp := []core.Space{product, listSpace, shapeSpace, fanout, chain, files, kindSpace, addSpace}
 			if tier != "thorough" {
 				sp = append(sp, product4)
 			}
